@@ -172,7 +172,7 @@ class StubSupervisor(DummySupervisor):
         group = DummyProcessGroup(config)
         group.processes = {}
         for pc in config.process_configs:
-            group.processes[pc.name] = StubProcess(pc, ProcessStates.STOPPED, self.world)
+            group.processes[pc.name] = self.world.new_process(pc)
         self.process_groups[config.name] = group
         return True
 
@@ -259,6 +259,9 @@ class World(object):
         subinterfaces.append(('system', self.system))
         self.stack = RpcStack(sup, subinterfaces)
         self.mroot = xmlrpc.AttrDict(self.system.namespaces)
+
+    def new_process(self, pconfig):
+        return StubProcess(pconfig, ProcessStates.STOPPED, self)
 
     # -- the daemon's main loop, one pass
     def tick(self):
@@ -362,3 +365,231 @@ def write_logs(logdir):
         with open(os.path.join(logdir, n), 'wb') as f:
             f.write(b)
     return files
+
+
+# ===================================================================== real
+# The same world, but the processes are REAL supervisor.process.Subprocess
+# objects (spawn / stop / kill / signal / write / finish / transition and their
+# state assertions are the working tree's code).  Only the OS layer is a test
+# double (DummyOptions: fork, kill, pipes) and the clock is virtual.
+
+import signal as _signal
+import time as _realtime
+from supervisor import process as _sproc
+
+_ACTIVE = [None]
+
+
+class _Clock(object):
+    """Stands in for the `time` module inside supervisor.process."""
+
+    def time(self):
+        w = _ACTIVE[0]
+        return float(w.clock) if w is not None and hasattr(w, 'clock') else _realtime.time()
+
+    def __getattr__(self, name):
+        return getattr(_realtime, name)
+
+
+def install_clock():
+    if not isinstance(_sproc.time, _Clock):
+        _sproc.time = _Clock()
+
+
+class RealOptions(StubOptions):
+    def __init__(self, world):
+        StubOptions.__init__(self, world)
+        self.nextpid = 3000
+        self.eperm = set()
+
+    def fork(self):
+        self.nextpid += 1
+        self.world.effects.append(('os', 'fork', self.nextpid))
+        return self.nextpid
+
+    def kill(self, pid, sig):
+        if abs(pid) in self.eperm:
+            raise OSError(errno.EPERM, 'Operation not permitted')
+        self.world.effects.append(('os', 'kill', pid, int(sig)))
+
+
+class RealPConfig(DummyPConfig):
+    def make_dispatchers(self, proc):
+        dispatchers, pipes = DummyPConfig.make_dispatchers(self, proc)
+        for d in dispatchers.values():
+            d.input_buffer = b''           # what the real PInputDispatcher holds
+        return dispatchers, pipes
+
+    def make_process(self, group=None):
+        p = _sproc.Subprocess(self)
+        p.group = group
+        return p
+
+
+# (group, process, state, quirk)
+REAL_VARIANTS = [
+    [('g1', 'p1', S.RUNNING, None), ('g1', 'p2', S.STOPPING, None), ('g2', 'q1', S.STARTING, None),
+     ('solo', 'solo', S.STOPPED, None)],
+    [('g1', 'p1', S.BACKOFF, None), ('g1', 'p2', S.FATAL, None), ('g2', 'q1', S.EXITED, None),
+     ('solo', 'solo', S.UNKNOWN, None)],
+    [('g1', 'p1', S.STOPPING, None), ('g1', 'p2', S.RUNNING, 'eperm'), ('g2', 'q1', S.STOPPING, None),
+     ('solo', 'solo', S.STARTING, None)],
+]
+
+
+class RealWorld(World):
+    """World whose processes are real Subprocess objects in every process state."""
+
+    STOP_DELAY = 2          # main-loop passes until a child that was sent its stop signal is reaped
+
+    def __init__(self, logdir, variant=0, mood=SupervisorStates.RUNNING):
+        install_clock()
+        self.clock = FIXED_NOW
+        _ACTIVE[0] = self
+        self.effects = []
+        self.events = []
+        self.npids = 0
+        self.logdir = logdir
+        self.dying = {}
+        opts = self.options = RealOptions(self)
+        opts.logfile = os.path.join(logdir, 'main.log')
+        sup = self.supervisord = StubSupervisor(opts, self)
+        opts.mood = mood
+        groups, gconfigs = {}, {}
+        prio = {'g1': 1, 'g2': 2, 'solo': 3}
+        for k, (g, p, state, quirk) in enumerate(REAL_VARIANTS[variant % len(REAL_VARIANTS)]):
+            logs = {'p1': ('p1.out', 'p1.err'), 'p2': ('bad.out', None), 'q1': (None, 'absent.err'),
+                    'solo': ('solo.out', 'p1.err')}[p]
+            pc = RealPConfig(opts, p, '/bin/cat', priority=10 + k, startsecs=2, stopwaitsecs=10,
+                             stdout_logfile=logs[0] and os.path.join(logdir, logs[0]),
+                             stderr_logfile=logs[1] and os.path.join(logdir, logs[1]))
+            if g not in gconfigs:
+                gconfigs[g] = DummyPGroupConfig(opts, g, priority=prio[g], pconfigs=[])
+                groups[g] = DummyProcessGroup(gconfigs[g])
+                groups[g].processes = {}
+            gconfigs[g].process_configs.append(pc)
+            proc = pc.make_process(groups[g])
+            self._put_in_state(proc, state, quirk, 1100 + k)
+            groups[g].processes[p] = proc
+        sup.process_groups = groups
+        extra = DummyPGroupConfig(opts, 'newgrp', priority=5,
+                                  pconfigs=[RealPConfig(opts, 'n1', '/bin/cat', priority=1, startsecs=2)])
+        opts.process_group_configs = [gconfigs[g] for g in gconfigs if g != 'solo'] + [extra]
+        self.iface = rpcinterface.make_main_rpcinterface(sup)
+        self.iface._now = lambda: FIXED_NOW
+        subinterfaces = [('supervisor', self.iface)]
+        self.system = xmlrpc.SystemNamespaceRPCInterface(subinterfaces)
+        subinterfaces.append(('system', self.system))
+        self.stack = RpcStack(sup, subinterfaces)
+        self.mroot = xmlrpc.AttrDict(self.system.namespaces)
+
+    def _put_in_state(self, proc, state, quirk, pid):
+        """The fields a process has after the history that leads to `state`."""
+        now = self.clock
+        proc.state = state
+        if state in (S.RUNNING, S.STARTING, S.STOPPING, S.UNKNOWN):
+            proc.pid = pid
+            proc.dispatchers, proc.pipes = proc.config.make_dispatchers(proc)
+            self.options.pidhistory[pid] = proc
+        if state == S.RUNNING:
+            proc.laststart = now - 100
+        elif state == S.STARTING:
+            proc.laststart = now
+            proc.delay = now + proc.config.startsecs
+        elif state == S.STOPPING:
+            proc.laststart = now - 100
+            proc.killing = True
+            proc.administrative_stop = True
+            proc.delay = now + proc.config.stopwaitsecs
+            self.dying[proc.config.name] = self.STOP_DELAY
+        elif state == S.UNKNOWN:
+            proc.laststart = now - 100
+            proc.killing = True
+        elif state == S.STOPPED:
+            proc.laststart = now - 300
+            proc.laststop = now - 200
+            proc.administrative_stop = True
+        elif state == S.EXITED:
+            proc.laststart = now - 300
+            proc.laststop = now - 200
+            proc.exitstatus = 0
+        elif state in (S.BACKOFF, S.FATAL):
+            proc.laststart = now - 30
+            proc.laststop = now - 29
+            proc.spawnerr = 'Exited too quickly (process log may have details)'
+            proc.exitstatus = 1
+            if state == S.BACKOFF:
+                proc.backoff = 1
+                proc.delay = now + 1
+            else:
+                proc.system_stop = True
+        if quirk == 'eperm':
+            self.options.eperm.add(pid)
+
+    def new_process(self, pconfig):
+        p = _sproc.Subprocess(pconfig)
+        p.laststart = self.clock - 300          # not an autostart candidate
+        return p
+
+    def _procs(self):
+        sup = self.supervisord
+        for g in sorted(sup.process_groups):
+            procs = sup.process_groups[g].processes
+            for p in sorted(procs):
+                yield procs[p]
+
+    def tick(self):
+        """One pass of the main loop: the clock advances, children that were
+        told to stop are reaped (real finish()), every process transitions
+        (real transition())."""
+        _ACTIVE[0] = self
+        self.clock += 1
+        for proc in self._procs():
+            name = proc.config.name
+            if proc.state == S.STOPPING and proc.pid:
+                left = self.dying.get(name, self.STOP_DELAY) - 1
+                self.dying[name] = left
+                if left <= 0:
+                    del self.dying[name]
+                    proc.finish(proc.pid, int(_signal.SIGTERM))   # wait status: killed by SIGTERM
+                    proc.pid = 0                                  # as supervisord.reap() leaves it
+            else:
+                self.dying.pop(name, None)
+        for proc in self._procs():
+            proc.transition()
+
+    def snapshot(self):
+        sup = self.supervisord
+        return (sup.options.mood, self.clock,
+                tuple((g, tuple((p.config.name, p.state, p.pid, p.killing, p.spawnerr, p.backoff, p.exitstatus,
+                                 p.laststart, p.laststop, p.delay, p.administrative_stop,
+                                 tuple(sorted((fd, getattr(d, 'input_buffer', None), d.closed,
+                                               getattr(d, 'logs_removed', None))
+                                              for fd, d in p.dispatchers.items())))
+                                for p in sorted(sup.process_groups[g].processes.values(),
+                                                key=lambda x: x.config.name)))
+                      for g in sorted(sup.process_groups)),
+                tuple(self.effects), tuple(self.events))
+
+    def call_xml(self, method, params, max_polls=60):
+        _ACTIVE[0] = self
+        return World.call_xml(self, method, params, max_polls)
+
+    def call_direct(self, method, params, max_polls=60):
+        _ACTIVE[0] = self
+        return World.call_direct(self, method, params, max_polls)
+
+    def traverse_mroot(self, method, params):
+        _ACTIVE[0] = self
+        return World.traverse_mroot(self, method, params)
+
+
+N_WORLDS = len(VARIANTS) + len(REAL_VARIANTS)
+
+
+def make_world(logdir, variant, mood):
+    """Layouts 0..len(VARIANTS)-1: scripted stub processes; the rest: real Subprocess objects."""
+    variant %= N_WORLDS
+    if variant < len(VARIANTS):
+        return World(logdir, variant, mood)
+    return RealWorld(logdir, variant - len(VARIANTS), mood)
